@@ -615,6 +615,15 @@ pub async fn start_replication_thread(
 ) {
     let mut op_log_stream = Oplog::get_log_file_append_mode();
     let mut invalidate_stream = get_invalidate_file_write_mode();
+    if !dbs.is_oplog_valid.load(Ordering::SeqCst) {
+        // Started with an invalid oplog: its flag file was deleted together with the log, and a
+        // missing (or empty) flag file reads as valid. Write it back as invalid until the keys
+        // map is stored again, otherwise a kill before the next snapshot leaves new records that
+        // a stale keys map can not decode
+        use std::io::{Seek, SeekFrom};
+        invalidate_stream.seek(SeekFrom::Start(0)).unwrap();
+        invalidate_stream.write(&[0]).unwrap();
+    }
     // Loop replicating messages
     loop {
         let message_opt = replication_receiver.next().await;
